@@ -3,8 +3,8 @@
    Model: Model/S3Retry.v (request loop of S3ChunkStore.request over the urllib3 Retry counters, _request conversions,
    error_map, _raise_for_status, _DetectTruncation, get_chunk + bucket check, RDB fetch), Model/Jwt.v. *)
 From Coq Require Import ZArith List Bool String.
-From KV Require Import Base.Sx Base.Str Gen.Generated Model.S3Retry Model.S3Session Model.Jwt Proofs.S3RetryP
-  Proofs.S3SessionP Proofs.JwtP.
+From KV Require Import Base.Sx Base.Str Gen.Generated Model.S3Retry Model.S3Session Model.Jwt Model.JwtHist Proofs.S3RetryP
+  Proofs.S3SessionP Proofs.JwtP Proofs.JwtHistP.
 Import ListNotations.
 Open Scope Z_scope.
 
@@ -272,3 +272,103 @@ Example C09_session_examples :
                                       mkOp 0 BFull segs 100 [Stall 0; Reset 3] []]))%nat = [Ok 224%nat; Ok 224%nat; Err Glitch].
 Proof. vm_compute. repeat split; reflexivity. Qed.
 Print Assumptions C09_session_examples.
+
+(* =====================================================================================
+   TOKENS OVER TIME (Model/JwtHist.v).  One process uses token strings again and again while the clock moves on:
+   decode_jwt(tok), S3ChunkStore(url, token=tok) + a request (a chunk, or the RDB file of TelstateDataSource.from_url),
+   further requests on a store object constructed earlier.  The model threads through the history whatever a validating
+   layer could remember (memo of decoded tokens per Generated.jwt_decode_memo, the store objects alive) and interprets
+   decode_jwt / _BearerAuth.__init__ / __call__ statement by statement in source order; the spec has no state.
+   ===================================================================================== *)
+
+(* the statements of decode_jwt in source order, with the comparison operator and constants re-translated from the
+   source, are the chain of checks of Model/Jwt.v *)
+Theorem C09_decode_jwt_statements : forall t now,
+  run_decode jwt_decode_steps t now d0 = match decode_jwt t now with None => DOk | Some r => DRej r end.
+Proof. exact run_decode_std. Qed.
+Print Assumptions C09_decode_jwt_statements.
+
+(* ---- MAIN (token histories): for every configuration, every table of tokens and EVERY history of uses at ANY clock
+   values (the clock may jump, stand still or run backwards), each use returns - and sends exactly the requests - that
+   the stateless spec says for the token, the clock of that moment, the URL and the path: rejected with zero requests
+   if the token is bad at that moment, the counting spec of the request otherwise.  A request on a store object
+   constructed earlier is judged by the token the store was constructed with and the clock of the REQUEST. ---- *)
+Theorem C09_token_history : forall cfg toks us,
+  wf_retry (c_retry cfg) = true -> Forall wf_use us ->
+  fst (run_hist cfg toks p0 us) = spec_hist cfg toks [] us.
+Proof. exact hist_is_spec. Qed.
+Print Assumptions C09_token_history.
+
+(* ---- NO MEMORY of earlier decisions: whatever happened before (any past `pre`, which may have used the same token
+   string while it was still valid), decode_jwt / store construction / the RDB download return what they return in a
+   fresh process: a function of the token, the clock, the URL and the path only.  No hypotheses. ---- *)
+Theorem C09_token_no_memory : forall cfg toks pre u post,
+  is_call u = false ->
+  nth (List.length pre) (fst (run_hist cfg toks p0 (pre ++ u :: post))) (Err Raw, O) =
+  fst (fst (use_step jwt_decode_memo cfg toks p0 u)).
+Proof. intros. apply no_memory. assumption. Qed.
+Print Assumptions C09_token_no_memory.
+
+Theorem C09_token_past_irrelevant : forall cfg toks pre pre' u post post',
+  is_call u = false ->
+  nth (List.length pre) (fst (run_hist cfg toks p0 (pre ++ u :: post))) (Err Raw, O) =
+  nth (List.length pre') (fst (run_hist cfg toks p0 (pre' ++ u :: post'))) (Err Raw, O).
+Proof. intros. rewrite !no_memory by assumption. reflexivity. Qed.
+Print Assumptions C09_token_past_irrelevant.
+
+(* ---- an expired token never reaches the wire: in ANY history, a use whose token (its own, or the one of the store
+   object it calls) has an expiry time that the clock has passed is refused with InvalidToken / AuthorisationFailed and
+   ZERO requests - also when the same token string was accepted earlier, and also on a store object that was
+   constructed while the token was still valid.  No hypotheses on configuration, faults or the past. ---- *)
+Theorem C09_expired_never_sent : forall cfg toks pre u post t,
+  used_token toks (snd (run_hist cfg toks p0 pre)) u = Some t -> expired_at t (u_now u) = true ->
+  exists e, nth (List.length pre) (fst (run_hist cfg toks p0 (pre ++ u :: post))) (Ok O, O) = (Err e, O) /\
+            (e = InvalidTok \/ e = Auth).
+Proof. intros. eapply expired_never_sent; eassumption. Qed.
+Print Assumptions C09_expired_never_sent.
+
+(* the store objects alive after any history are exactly those constructed with a token that was acceptable then *)
+Theorem C09_stores_are_accepted_opens : forall cfg toks us,
+  wf_retry (c_retry cfg) = true -> Forall wf_use us ->
+  p_stores (snd (run_hist cfg toks p0 us)) =
+  map u_tok (filter (fun u => match u_entry u with
+                              | EOpen => negb (open_bad (u_scheme u) (u_host u) (tok toks (u_tok u)) (u_now u))
+                              | _ => false end) us).
+Proof. exact stores_are_accepted_opens. Qed.
+Print Assumptions C09_stores_are_accepted_opens.
+
+(* ---- laws of the clock: what decode_jwt refuses it refuses at every later moment (no resurrection); the clock enters
+   through the expiry comparison only; a token is good up to and including its expiry second (time.time() > exp, the
+   operator re-translated from the source) ---- *)
+Theorem C09_token_no_resurrection : forall t now now', now <= now' ->
+  decode_jwt t now <> None -> decode_jwt t now' <> None.
+Proof. exact decode_no_resurrection. Qed.
+Print Assumptions C09_token_no_resurrection.
+
+Theorem C09_clock_only_via_expiry : forall t now now',
+  expired_at t now = expired_at t now' -> decode_jwt t now = decode_jwt t now'.
+Proof. exact decode_time_only_exp. Qed.
+Print Assumptions C09_clock_only_via_expiry.
+
+Theorem C09_expiry_boundary : forall t v now, t_exp t = ExpInt v ->
+  (expired_at t now = true <-> v < now) /\ cmpZ jwt_exp_cmp now v = (now >? v).
+Proof. intros t v now H. split; [exact (expiry_boundary t v now H)|reflexivity]. Qed.
+Print Assumptions C09_expiry_boundary.
+
+(* satisfiable, and the histories that matter: token "bkt*" expiring at 1000 used at 900, 1000, 1001: accepted, accepted
+   (boundary), refused without a request; the store object constructed at 900 refuses at 1001 as well; decode_jwt refuses
+   at 1001 and - the clock having been set back - accepts at 999 again.  Last line: what a memo of successful decodes
+   (functools.lru_cache) would do with [open at 900; open at 1001] - the expired token would be sent. *)
+Example C09_token_history_examples :
+  let cfg := default_config 2 2 in
+  let segs := [8; 2; 118; 96]%nat in
+  let tA := mkToken 3 true "ES256" 86 true (ExpInt 1000) true [[98; 107; 116]] in
+  let u e now := mkUse e 0%nat now "https" "archive" [98; 107; 116; 47; 97] (PChunk segs) 224%nat [] in
+  let ok := (Ok 224%nat, 1%nat) in
+  let refused := (Err InvalidTok, 0%nat) in
+  fst (run_hist cfg [tA] p0 [u EOpen 900; u EOpen 1000; u EOpen 1001; u (ECall 0%nat) 1001; u EDecode 1001; u EDecode 999])
+    = [ok; ok; refused; refused; refused; (Ok 0%nat, 0%nat)] /\
+  fst (run_hist_p (Some 32) cfg [tA] p0 [u EOpen 900; u EOpen 1001]) = [ok; ok] /\
+  fst (run_hist_p None cfg [tA] p0 [u EOpen 900; u EOpen 1001]) = [ok; refused].
+Proof. vm_compute. repeat split; reflexivity. Qed.
+Print Assumptions C09_token_history_examples.
